@@ -47,7 +47,7 @@ EXHAUSTIVE = {"quick": True, "thorough": True}
 SAMPLE_EVERY = {"quick": 30000, "thorough": 60000}
 
 KINDS = ["ascope", "sscope", "updated", "dscope"]
-TYPES = ("A", "A2", "R", "G", "U", "F", "M", "IT")
+TYPES = ("A", "A2", "R", "G", "U", "F", "M", "IT", "N")
 
 
 def _forests(n_max: int, kinds: list[str], supplies: list[int]):
@@ -99,7 +99,7 @@ def programs(tier: str):
             for s1, s2 in ((1, 1), (1, 2), (5, 1), (0, 1)):
                 yield {"forest": [{"l": [k1, s1], "c": [{"l": ["updated", 2, "return", "shared"], "c": []}]}, {"l": [k2, s2], "c": [{"l": ["updated", 2, "return", "shared"], "c": []}]}], "order": "nd-first"}
     # value-equal re-supplies and a type whose default construction fails with an ExceptionGroup
-    for sup in (8, 9, 10, 11, 12, 13, 14, 15):
+    for sup in (8, 9, 10, 11, 12, 13, 14, 15, 16):
         for kind in KINDS:
             yield {"forest": [{"l": [kind, sup], "c": []}], "order": "nd-first"}
             for okind in KINDS:
